@@ -7,6 +7,7 @@ cd /verif
 git merge --no-commit --no-ff wip-$P >/dev/null 2>&1 || true
 for f in MANIFEST.json known_findings.jsonl lean/lakefile.toml; do
   git checkout --ours -- $f 2>/dev/null || true
+  git add -- $f 2>/dev/null || true
 done
 if git diff --name-only --diff-filter=U | grep -q .; then echo "CONFLICTS in /verif:"; git diff --name-only --diff-filter=U; exit 1; fi
 python3 tools/gen_lakefile.py >/dev/null
